@@ -156,16 +156,16 @@ def extract(repo, ci):
 
 
 def run(ctx):
-    kinematics_rule(ctx)
+    ctx.attempt(kinematics_rule, ctx)
     # 'over arbitrarily many steps': no memo of the step-start state survives the end of the step
     from ..shared import memo_rule as _memo_rule, cached_param_rule as _cached_param_rule
 
     _scope = ("EasyFEA.Simulations._hyperelastic", "EasyFEA.Models.HyperElastic", "EasyFEA.FEM.Operators.NonLinear", "EasyFEA.Simulations._simu")
-    _memo_rule(ctx, "R18.8", scope=lambda f: f.module.name.startswith(_scope), min_instances=0)
-    _cached_param_rule(ctx, "R18.9", min_instances=20)
+    ctx.attempt(_memo_rule, ctx, "R18.8", scope=lambda f: f.module.name.startswith(_scope), min_instances=0)
+    ctx.attempt(_cached_param_rule, ctx, "R18.9", min_instances=20)
     from . import c14 as _c14
 
-    _c14.simu_memo_state_rule(ctx, "R18.10")
+    ctx.attempt(_c14.simu_memo_state_rule, ctx, "R18.10")
     repo = ctx.repo
     ctx.level = "proof"
     ctx.explanation = (
